@@ -86,6 +86,12 @@ pub fn iter_map<I: Iterator, B, F: FnMut(I::Item) -> B>(i: I, f: F) -> (r: MapIt
         forall|k: int| 0 <= k < i.remaining().len() ==> f.ensures((i.remaining()[k],), #[trigger] r.rem()[k]),
 { MapIter { inner: i.map(f) } }
 
+// Iterator::collect::<Vec<Record>>() on a record iterator yields its remaining elements in order   TRUSTED
+#[verifier::external_body]
+pub fn iter_collect<'a>(i: RecordIter<'a>) -> (r: Vec<Record>)
+    ensures r@ == i.remaining()
+{ i.collect() }
+
 pub trait Storage {
     spec fn view(&self) -> St;
 
